@@ -56,19 +56,26 @@ func H_C18_Admission() {
 	if alen == 0 {
 		a.Addr = nil
 	}
-	carrier := vPick(4)
+	carrier := vPick(8)
 	srcAllowed := true
 	switch carrier {
-	case 0, 1, 2:
+	case 0, 1, 2, 4, 5, 6, 7:
 		buf, err := encode(aliveMsg, &a, false)
 		vAssert(err == nil, "c18.encode")
 		from := vAddr("10.1.0.9:7946")
-		if carrier == 1 {
-			from = vAddr("192.168.1.1:7946")
-			srcAllowed = false
-		} else if carrier == 2 {
-			from = vAddr("[fe80::1]:7946")
-			srcAllowed = false
+		switch carrier {
+		case 1:
+			from, srcAllowed = vAddr("192.168.1.1:7946"), false
+		case 2:
+			from, srcAllowed = vAddr("[fe80::1]:7946"), false
+		case 4:
+			from = vAddr("[::ffff:10.1.0.9]:7946") // IPv4-mapped form of an allowed source
+		case 5:
+			from, srcAllowed = vAddr("[fd00::5]:7946"), withV6
+		case 6:
+			from = vAddr("pipe") // in-process transports are exempt from the source check
+		case 7:
+			from, srcAllowed = vAddr("not-an-address"), false
 		}
 		m.handleAlive(buf.Bytes()[1:], from)
 	case 3:
